@@ -17,6 +17,10 @@ pub struct World {
     pub notes: Vec<String>,
     pub last_pat: Vec<u8>,
     pub last_pmt: BTreeMap<u16, Vec<u8>>,
+    /// PIDs no table lists any more (dropped streams, program-map PIDs of removed programs): re-used later in another role
+    pub retired: Vec<u16>,
+    /// versions a table had before (by table PID; 0 = PAT): a later version may return to one of them
+    pub old_versions: BTreeMap<u16, Vec<u8>>,
 }
 const TYPES: [u8; 6] = [0x1b, 0x0f, 0x02, 0x03, 0x05, 0x86];
 
@@ -39,7 +43,7 @@ impl World {
         let mut pool = pool;
         // the network PID is taken out of the pool of elementary PIDs (one PID does not carry both in a valid stream)
         if rng.chance(1, 5) { let nit = pool.pop().unwrap(); progs.push((0, nit)); }
-        World { ts_id: rng.below(0x10000) as u16, pat_version: rng.below(32) as u8, progs, pmts, pool, mux: Mux::new(), notes: vec![], last_pat: vec![], last_pmt: BTreeMap::new() }
+        World { ts_id: rng.below(0x10000) as u16, pat_version: rng.below(32) as u8, progs, pmts, pool, mux: Mux::new(), notes: vec![], last_pat: vec![], last_pmt: BTreeMap::new(), retired: vec![], old_versions: BTreeMap::new() }
     }
     fn pat_section(&self, rng: &mut Rng) -> Vec<u8> { section(0, self.ts_id, self.pat_version, true, &pat_body(&self.progs, rng)) }
     fn pmt_section(&self, pid: u16, big: bool, rng: &mut Rng) -> Vec<u8> {
@@ -143,10 +147,19 @@ impl World {
         self.mux.pkts.split_off(before)
     }
     pub fn bump_pat(&mut self, rng: &mut Rng) {
-        self.pat_version = (self.pat_version + 1 + rng.below(3) as u8) & 31;
+        let cur = self.pat_version;
+        let olds = self.old_versions.entry(0).or_default();
+        // a new version_number: usually the next ones, now and then one the table had before (not the current one)
+        let back: Vec<u8> = olds.iter().cloned().filter(|v| *v != cur).collect();
+        self.pat_version = if !back.is_empty() && rng.chance(1, 4) { *rng.pick(&back) } else { (cur + 1 + rng.below(3) as u8) & 31 };
+        olds.push(cur);
         match rng.below(4) {
-            0 if self.progs.iter().filter(|p| p.0 != 0).count() > 1 => { let k = rng.below(self.progs.len() as u64) as usize; if self.progs[k].0 != 0 { self.progs.remove(k); } }
-            1 => { let pid = self.pool[rng.below(self.pool.len() as u64) as usize] ^ 0x1000; let pn = 50 + rng.below(50) as u16;
+            0 if self.progs.iter().filter(|p| p.0 != 0).count() > 1 => { let k = rng.below(self.progs.len() as u64) as usize; if self.progs[k].0 != 0 { let gone = self.progs.remove(k);
+                   if !self.progs.iter().any(|p| p.1 == gone.1) { if let Some(m) = self.pmts.remove(&gone.1) { self.last_pmt.remove(&gone.1); self.retired.push(gone.1); for s in m.streams { if !self.pmts.values().any(|x| x.streams.iter().any(|y| y.1 == s.1)) { self.retired.push(s.1); } } } } } }
+            1 => { let fresh_pid = self.pool[rng.below(self.pool.len() as u64) as usize] ^ 0x1000;
+                   // the new program's map PID: a fresh PID, or one that had another role earlier and is listed nowhere now
+                   let pid = if !self.retired.is_empty() && rng.chance(1, 2) { let k = rng.below(self.retired.len() as u64) as usize; self.retired.remove(k) } else { fresh_pid };
+                   let pn = 50 + rng.below(50) as u16;
                    let es = pid ^ 0x0800;
                    let used = |x: u16| x < 0x10 || x == 0x1fff || self.pool.contains(&x) || self.pmts.contains_key(&x) || self.progs.iter().any(|p| p.1 == x)
                                        || self.pmts.values().any(|m| m.streams.iter().any(|s| s.1 == x));
@@ -157,11 +170,20 @@ impl World {
         }
     }
     pub fn bump_pmt(&mut self, pid: u16, rng: &mut Rng) {
-        let fresh = self.pool[rng.below(self.pool.len() as u64) as usize];
+        let mut fresh = self.pool[rng.below(self.pool.len() as u64) as usize];
+        if !self.retired.is_empty() && rng.chance(1, 3) { let k = rng.below(self.retired.len() as u64) as usize; let r = self.retired.remove(k);
+            if r != pid && !self.pmts.contains_key(&r) && !self.progs.iter().any(|x| x.1 == r) { fresh = r; } }
+        let cur = self.pmts[&pid].version;
+        let olds = self.old_versions.entry(pid).or_default();
+        let back: Vec<u8> = olds.iter().cloned().filter(|v| *v != cur).collect();
+        let newv = if !back.is_empty() && rng.chance(1, 4) { *rng.pick(&back) } else { (cur + 1 + rng.below(3) as u8) & 31 };
+        olds.push(cur);
+        let others: Vec<u16> = self.pmts.iter().filter(|(k, _)| **k != pid).flat_map(|(_, m)| m.streams.iter().map(|s| s.1)).collect();
         let p = self.pmts.get_mut(&pid).unwrap();
-        p.version = (p.version + 1 + rng.below(3) as u8) & 31;
+        p.version = newv;
         match rng.below(5) {
-            0 if p.streams.len() > 1 => { let k = rng.below(p.streams.len() as u64) as usize; p.streams.remove(k); }
+            0 if p.streams.len() > 1 => { let k = rng.below(p.streams.len() as u64) as usize; let gone = p.streams.remove(k);
+                                         if !p.streams.iter().any(|s| s.1 == gone.1) && !others.contains(&gone.1) { self.retired.push(gone.1); } }
             1 => { if !p.streams.iter().any(|s| s.1 == fresh) { p.streams.push((*rng.pick(&TYPES), fresh)); } }
             2 => { let k = rng.below(p.streams.len() as u64) as usize; p.streams[k].0 = *rng.pick(&TYPES); }
             3 => { p.streams.reverse(); }
